@@ -140,7 +140,8 @@ def check_case(case, stats=None, K=oracle.K_QUICK):
 
 @st.composite
 def cases(draw, nvec, all256=False):
-    cfg = programs.Cfg(call_bias=25, tail_call_bias=40, max_funcs=4, max_params=3, d5_args=draw(st.booleans()))
+    cfg = programs.Cfg(call_bias=25, tail_call_bias=40, max_funcs=4, max_params=3, d5_args=draw(st.booleans()),
+                       nested_arg_pct=draw(st.sampled_from([20, 70])))
     if draw(st.integers(0, 4)) == 0:
         from ..gen import callgraph
         c = draw(callgraph.tailcall_cases(nenv=1))
